@@ -315,9 +315,31 @@ let cout_text (o : M.cout) : string =
 let kind_of_text k =
   match k with "H" -> M.KHashMap | "E" -> M.KEmpty | "EB" -> M.KEmptyBuiltin | "N" -> M.KNoStore | _ -> failwith "ctx kind"
 
+(* EVX_WRAPPERS=1: `ev`/`evc` steps go through the entry points TRANSLATED from the source
+   (Gen/Interface.v, run_entry_gen) instead of the projection specification (run_entry) *)
+let use_wrappers = (try Sys.getenv "EVX_WRAPPERS" = "1" with Not_found -> false)
+
+let step_wrapped (st : M.ctx * M.log) (op : M.cop) : (M.ctx * M.log) * M.cout =
+  let c, lg = st in
+  let mutable_kind = match c.M.c_kind with M.KHashMap | M.KNoStore -> true | _ -> false in
+  match op with
+  | M.CEv (M.EEval (l, m, t), src) | M.CEvc (M.EEval (l, m, t), src) ->
+      let keep = (match op with M.CEv _ -> true | _ -> false) in
+      if m = M.MMut && not mutable_kind then (st, M.ONa)
+      else
+        let (r, c'), lg' = M.run_entry_gen oracle l m t src c lg in
+        if m = M.MMut then (((if keep then c' else c), lg'), M.OVal r) else ((c', lg'), M.OVal r)
+  | _ -> M.step oracle st op
+
+let run_script_wrapped st ops =
+  let st, outs = List.fold_left (fun (st, outs) op -> let st', o = step_wrapped st op in (st', o :: outs)) (st, []) ops in
+  (st, List.rev outs)
+
 let run_script (kind : string) (ops : string) : string =
   let ops = if ops = "" then [] else List.map parse_op (split_on ';' ops) in
-  let (c, lg), outs = M.run_script oracle (M.initial_ctx (kind_of_text kind), []) ops in
+  let (c, lg), outs =
+    if use_wrappers then run_script_wrapped (M.initial_ctx (kind_of_text kind), []) ops
+    else M.run_script oracle (M.initial_ctx (kind_of_text kind), []) ops in
   let outs = List.map cout_text outs in
   let log = List.map (fun (f, v) -> hex_of_str f ^ "(" ^ value_text v ^ ")") lg in
   Printf.sprintf "%s || %s LOG[%s]" (String.concat " | " outs) (ctx_text c) (String.concat "," log)
